@@ -4,7 +4,12 @@ def _rl(name, nb, **kw):
              unwind=8, unwind_fn={"harness": 12, "ReadLnCont": 5, "vf_fgets": 8}, functions=["strutil.c:ReadLnCont"], bounds="every file of 0..%d bytes without NUL" % nb, timeout=1500, mem_gb=24,
              assumes=["stdio replaced by the memory-file model (fgets contract: up to n-1 bytes, stops after LF, NULL at EOF with nothing read)", "line buffer of 256 bytes: no reallocation at these sizes (asserted)"])
     d.update(kw); return d
-OBLIGATIONS = [_rl("readlncont", 3), _rl("readlncont_4", 4, tier="thorough")]
+OBLIGATIONS = [_rl("readlncont", 3), _rl("readlncont_4", 4, tier="thorough"),
+    dict(name="firstblank", src="blank.c", include=["asmsub.c"], units=["asmdef.c"], defs=["K_FIRSTBLANK", "STRINGSIZE=16"], nobody_mode="nondet", unwind=8, unwind_fn={"harness": 8},
+         functions=["asmsub.c:FirstBlank"], bounds="every string of <= 5 characters", assumes=["frame assumption for unrelated callees of asmsub.c"]),
+    dict(name="casecmp", src="blank.c", include=["asmsub.c"], units=["asmdef.c", "strutil.c"], defs=["K_CASECMP", "STRINGSIZE=16"], nobody_mode="nondet", unwind=8, unwind_fn={"harness": 8},
+         functions=["strutil.c:as_strcasecmp"], bounds="every pair of ASCII strings of <= 5 characters", assumes=["C locale toupper"]),
+]
 _OLD = [
     dict(name="readlncont_old", src="readln.c", include=["strutil.c"], units=["dynstr.c"], cuts={"dynstr.c": ["as_dynstr_realloc"]}, defs=["NB=3", "STRINGSIZE=16"], unwind=8, unwind_fn={"harness": 12, "ReadLnCont": 5, "vf_fgets": 8},
          functions=["strutil.c:ReadLnCont"], bounds="every file of 0..3 bytes without NUL", timeout=900,
